@@ -16,7 +16,7 @@ use serde_json::{json, Value};
 pub static DEF: PropDef = PropDef {
     id: "C01",
     level: "exploration",
-    rule: "random room-definition histories (1-2 groups; admins, user admins, users enabled / disabled / re-enabled; per-entity and wildcard rights replaced over time, including all-rows without own-rows) on two rooms shared by three real instances (one identity each), interleaved with API operations by a random caller: create, update own / foreign row, move between the rooms, nested sub-entities with inherited or explicit room, reference set / add / clear, node deletion, reference deletion (existing or not), room update by admin / user admin / user / outsider. Oracle: snapshot before/after every call on the caller + independent rights model. non-trivial = history with accepted and refused operations, a foreign-row operation and at least two definition dates; distinct = canonical (operation kind, verdict) sequence",
+    rule: "random room-definition histories (1-2 groups; admins, user admins, users enabled / disabled / re-enabled; per-entity and wildcard rights replaced over time, including all-rows without own-rows) on two rooms shared by three real instances (one identity each), interleaved with API operations by a random caller: create, update own / foreign row, move between the rooms, nested sub-entities with inherited or explicit room, reference set / add / clear, node deletion, reference deletion (existing or not), room update by admin / user admin / user / outsider. Oracle: snapshot before/after every call on the caller + independent rights model. non-trivial = history with accepted and refused operations, a foreign-row operation and at least two definition dates; distinct = canonical (operation kind, verdict) sequence After every accepted room mutation the next calls are biased towards moves, updates and deletions; every case ends with a directed tail: an admin withdraws a member's right (or membership) in the room of one of its own rows, then that member moves, updates and deletes the row.",
     assumptions: &[
         "room definitions and rows are replicated to the other instances after every accepted call by directed pulls, so that every caller validates against the same definition the model holds",
         "entity short names of the workload model: 0=Person 1=Pet 2.0=ns.Thing, 0.x = system entities",
